@@ -5,6 +5,7 @@ import (
 	"fmt"
 	"sort"
 	"strings"
+	"sync"
 
 	"github.com/fabiolb/fabio/config"
 	"github.com/fabiolb/fabio/route"
@@ -47,6 +48,11 @@ type srcIn struct {
 type srcOut struct {
 	Combined string       `json:"combined"`
 	Dflt     string       `json:"dflt"`
+	// Dflt0: digest of the configuration without any source, taken before this process had loaded anything else;
+	// CombinedAgain: digest of the Config returned for the combined sources, taken again after all other loads of
+	// the case.  Loading is a function of its inputs: neither may move.
+	Dflt0         string `json:"dflt0"`
+	CombinedAgain string `json:"combined_again"`
 	Eff      [4]*[4]string `json:"eff"` // Eff[s][c]: only channel c carries source s's value
 }
 
@@ -261,6 +267,11 @@ func sameVals(a, b [4]*string) bool {
 	return true
 }
 
+var (
+	dflt0Once sync.Once
+	dflt0     string
+)
+
 func runSources(raw json.RawMessage) (interface{}, error) {
 	var in srcIn
 	if err := json.Unmarshal(raw, &in); err != nil {
@@ -292,7 +303,10 @@ func runSources(raw json.RawMessage) (interface{}, error) {
 		t := propsText(in.Props)
 		pt = &t
 	}
-	out.Combined = doLoad(in.Args, in.Env, pt).digest()
+	dflt0Once.Do(func() { dflt0 = doLoad(nil, nil, nil).digest() })
+	out.Dflt0 = dflt0
+	combined := doLoad(in.Args, in.Env, pt)
+	out.Combined = combined.digest()
 	out.Dflt = doLoad(nil, nil, nil).digest()
 	for s := 0; s < 4; s++ {
 		if in.Vals[s] == nil {
@@ -309,6 +323,7 @@ func runSources(raw json.RawMessage) (interface{}, error) {
 		}
 		out.Eff[s] = &e
 	}
+	out.CombinedAgain = combined.digest()
 	return out, nil
 }
 
